@@ -1351,7 +1351,10 @@ def rewrite_float_out(s):
     # nondeterministic result (probed: `let a = x as f64; let b = x as f64; assert(a == b)` fails), so the
     # cast is named: `<F as CastFromI128>::cast_from_i128(X.coeff)`, an external_body stub (spec/std_float_out.rs)
     # whose body is the same cast and whose result is the uninterpreted `i128_as_f64/f32(x)` (trusted: rustc/LLVM).
-    s, k = re.subn(r'(?<![A-Za-z0-9_.])((?:self|[a-z_][a-z0-9_]*)\.coeff) as (Self|f64|f32)(?![A-Za-z0-9_])',
+    # The operand is any local / field path (`d.coeff`, or a local the coefficient was bound to): what matters is
+    # the cast, not how its operand is spelled.  An operand that is not an i128 does not type-check against the
+    # stub (front-end error => bounded fallback / undecided, never an alarm).
+    s, k = re.subn(r'(?<![A-Za-z0-9_.])((?:self|[a-z_][a-z0-9_]*)(?:\.[a-z_][a-z0-9_]*)*) as (Self|f64|f32)(?![A-Za-z0-9_])',
                    r'<\2 as CastFromI128>::cast_from_i128(\1)', s)
     _count('R53.float_cast', k)
     return s
